@@ -148,6 +148,7 @@ Theorem C03_moving_drain_accounting :
          c_dg c = true ->
          forall (st : astate) (nx : N) (v : nat) (sb eb : bound) (pat : list (bool * sink)) 
            (f : fin) (r : sres) (D L : list N),
+         1 <= nx ->
          sp_drain c st nx v sb eb pat f = None ->
          sp_drain_mv c st nx v sb eb pat f = Some r ->
          Permutation (created c nx) (vis st ++ D ++ L) ->
@@ -158,15 +159,19 @@ Proof. exact drain_mv_own. Qed.
 Theorem C03_moving_walk_accounting :
   forall c : cfg,
          c_dg c = true ->
-         forall (v : nat) (xs : list N) (pat : list (bool * sink)) (i j : nat) (st : astate) (r : wres),
+         forall (v : nat) (xs : list N) (pat : list (bool * sink)) (i j : nat) (st : astate) 
+           (nx : N) (r : wres),
          (i <= j)%nat ->
          (j <= length xs)%nat ->
-         sp_walk_mv c v xs pat i j st = Some r ->
+         1 <= nx ->
+         sp_walk_mv c v xs pat i j st nx = Some r ->
          let
-         '(evs, i', j', st', lost) := wres_parts r in
-          Permutation (vis st ++ firstn (j - i) (skipn i xs))
-            (vis st' ++ drops evs ++ lost ++ firstn (j' - i') (skipn i' xs)) /\
-          (i <= i')%nat /\ (i' <= j')%nat /\ (j' <= j)%nat /\ get_a v st' = get_a v st.
+         '(evs, i', j', st', lost, nx') := wres_parts r in
+          exists news : list N,
+            created c nx' = created c nx ++ news /\
+            Permutation (vis st ++ firstn (j - i) (skipn i xs) ++ news)
+              (vis st' ++ drops evs ++ lost ++ firstn (j' - i') (skipn i' xs)) /\
+            (i <= i')%nat /\ (i' <= j')%nat /\ (j' <= j)%nat /\ get_a v st' = get_a v st /\ nx <= nx'.
 Proof. exact sp_walk_mv_perm. Qed.
 
 (** splices whose yielded items are moved or forgotten: every element and every replacement value ends up in exactly one place *)
